@@ -236,6 +236,9 @@ func GenAction(t *rapid.T, p *Profile, cfg *Config, ops []string) Action {
 		a.N = rapid.IntRange(-1, 1).Draw(t, "delta")
 	case "runtasks":
 		a.N = rapid.IntRange(1, 4).Draw(t, "ntasks")
+	case "burst":
+		a.N = rapid.IntRange(2050, 2300).Draw(t, "nburst")
+		a.Sel = rapid.IntRange(0, 59).Draw(t, "span")
 	case "saveload":
 		a.N = rapid.IntRange(0, 10).Draw(t, "tmax")
 		cls := rapid.IntRange(0, 3).Draw(t, "slcls")
@@ -256,7 +259,7 @@ func expandOps(p *Profile, cfg *Config) []string {
 	order := []string{"set", "setifabsent", "getifpresent", "getentry", "getentryquietly", "compute", "computeifabsent",
 		"computeifpresent", "invalidate", "invalidateall", "setexpiresafter", "setrefreshableafter", "get", "bulkget",
 		"refresh", "bulkrefresh", "iter", "setmaximum", "getmaximum", "cleanup", "advance", "advanceto", "runtasks",
-		"quiesce", "saveload"}
+		"quiesce", "saveload", "burst"}
 	var out []string
 	for _, op := range order {
 		w := p.Ops[op]
@@ -264,7 +267,7 @@ func expandOps(p *Profile, cfg *Config) []string {
 			continue
 		}
 		switch op {
-		case "runtasks":
+		case "runtasks", "burst":
 			if cfg.Executor != ExecDeferred {
 				continue
 			}
